@@ -114,6 +114,15 @@ var infBytes = make([]byte, 64)
 
 var g2BaseTok = hx.Hex(bn.GetG2Base().Marshal())
 
+// signGen is what model.GroupSignGenerator and (through the hook) logical.groupSignGenerator offer.
+type signGen interface {
+	AddWitnessSign(id groupsig.ID, sig groupsig.Signature) (bool, bool)
+	GetGroupSign() groupsig.Signature
+}
+
+// lgenNew is set by lgen_hook.go when the harness is built with tag c13lgen.
+var lgenNew func(k int) signGen
+
 // g2Of: `00` is the one-byte encoding of infinity; otherwise the 128-byte form.
 func g2Of(tok string) *bn.G2 {
 	b, err := hx.UnHex(tok)
@@ -365,10 +374,14 @@ func execOp(line string) string {
 			return "nil"
 		}
 		return "ok " + hx.Hex(pk.Serialize())
-	case "gen":
+	case "gen", "lgen":
 		// gen <k> <js|-> <id> <sig> ... : feed model.GroupSignGenerator in this order
+		// lgen: the same on the unexported twin logical.groupSignGenerator (needs the c13lgen hook)
 		if len(w) < 3 || (len(w)-3)%2 != 0 {
 			return "bad-op"
+		}
+		if w[0] == "lgen" && lgenNew == nil {
+			return "no-hook"
 		}
 		k, ok := tokDec(w[1])
 		if !ok {
@@ -390,7 +403,10 @@ func execOp(line string) string {
 			}
 			arrs = append(arrs, arrival{idOf(x), *groupsig.DeserializeSign(sb)})
 		}
-		gsg := model.NewGroupSignGenerator(k)
+		var gsg signGen = model.NewGroupSignGenerator(k)
+		if w[0] == "lgen" {
+			gsg = lgenNew(k)
+		}
 		flags := make([]string, 0)
 		b2 := func(b bool) string {
 			if b {
@@ -1042,9 +1058,17 @@ func (g *gen) genSignGen(n int) {
 		}
 		g.count("gen." + kind + " ids=" + cl)
 		g.emit(strings.TrimSpace("gen " + strconv.Itoa(k) + " - " + interleave(sid, ssig)))
+		if lgenNew != nil {
+			g.count("lgen." + kind)
+			g.emit(strings.TrimSpace("lgen " + strconv.Itoa(k) + " - " + interleave(sid, ssig)))
+		}
 	}
 	g.emit("gen 0 -")
 	g.emit("gen 0 - 01 " + hx.Hex(genBytes))
+	if lgenNew != nil {
+		g.emit("lgen 0 -")
+		g.emit("lgen 0 - 01 " + hx.Hex(genBytes))
+	}
 }
 
 func collides(ids []*big.Int) bool {
@@ -1523,6 +1547,6 @@ func main() {
 	}
 	dist, _ := json.Marshal(g.dist)
 	st := out.StatsJSON()
-	st = st[:len(st)-1] + ",\"dist\":" + string(dist) + fmt.Sprintf(",\"param\":{\"min\":%d,\"max\":%d,\"thr\":%d}}", min, max, model.Param.SSSSThreshold)
+	st = st[:len(st)-1] + ",\"dist\":" + string(dist) + fmt.Sprintf(",\"param\":{\"min\":%d,\"max\":%d,\"thr\":%d},\"logical_twin_hook\":%v}", min, max, model.Param.SSSSThreshold, lgenNew != nil)
 	fmt.Println("STATS " + st)
 }
